@@ -425,8 +425,13 @@ def make_cf2d(rng, *, shoc=False, nj=None, ni=None, bounds=None, holes=None, coo
     else:
         lon_b = numpy.stack([nx[:-1, :-1], nx[:-1, 1:], nx[1:, 1:], nx[1:, :-1]], axis=-1)
         lat_b = numpy.stack([ny[:-1, :-1], ny[:-1, 1:], ny[1:, 1:], ny[1:, :-1]], axis=-1)
-        lon_b[removed] = NAN
-        lat_b[removed] = NAN
+        # a missing cell usually lacks both coordinates; sometimes only its longitudes or only its latitudes are missing
+        # (a fill value in one of the two bounds variables): it has no polygon all the same
+        part = rng.random(removed.shape)
+        lon_b[removed & (part >= 0.15)] = NAN
+        lat_b[removed & ((part < 0.15) | (part >= 0.3))] = NAN
+        if bool((removed & (part < 0.3)).any()):
+            m.encoding['holes_missing_one_coordinate'] = int((removed & (part < 0.3)).sum())
         bowtie = chance(rng, 0.15) if bowtie is None else bowtie
         if bowtie and nj >= 3 and ni >= 3:
             j, i = int(rng.integers(1, nj - 1)), int(rng.integers(1, ni - 1))
